@@ -499,6 +499,11 @@ def main_check(h, tier, seed, replay=None):
                 broken.append('tie-B:cases ' + ','.join(map(str, tie_fail[:10])))
     report['tie']['cases_compared'] = len(terms)
     report['tie']['disagreements'] = len(tie_fail)
+    # a tie that compares (almost) nothing shows nothing: fewer than a quarter of the generated cases reaching the model is a
+    # broken obligation (on the unchanged tree the lowest share is about 40%)
+    floor = getattr(h, 'MIN_COMPARED', 0.25)
+    if not replay and getattr(h, 'CHECK_FN', None) and len(cases) >= 50 and len(terms) < floor * len(cases):
+        broken.append('tie-B:coverage-collapsed %d of %d cases reached the model' % (len(terms), len(cases)))
 
     # ---- harness failures that are not property violations break the tie instead
     real = [v for v in violations if v.get('kind') == 'direct']
